@@ -49,6 +49,7 @@ def main():
     rng = random.Random(seed * 1000003 + sum(map(ord, pid)))
     violations, notes = [], []        # violations: dicts with 'kind'
     ev = {"property_id": pid, "tier": tier, "seed": seed, "level": "proof", "coverage": {}, "assumptions": [], "wall_s": 0.0, "violations": 0}
+    ir_stats = None
 
     # 1. translator ---------------------------------------------------------------------------
     g = gen_consts.generate()
@@ -69,6 +70,9 @@ def main():
             r2 = random.Random(seed * 7919 + 13)
             lines = lines + gen.relation_lines(lines, r2)
             lines = lines + gen.alias_lines(lines, r2) + gen.reuse_lines(lines, r2)
+        if not args.replay:
+            ir_stats, ir_lines = ir_candidates(lines, tier, notes)
+            lines = ir_lines + lines
         seen, uniq = set(), []
         for l in lines:
             if l not in seen: seen.add(l); uniq.append(l)
@@ -272,10 +276,32 @@ def main():
     cov["ub_reports"] = ub_reports[:5]
     if ce_stats is not None: cov["constant_evaluation_leg"] = ce_stats
     if soak_stats is not None: cov["native_soak"] = soak_stats
+    if ir_stats is not None: cov["solver_guided_search"] = ir_stats
     cov["translator"] = {"changed": g["changed"], "table_sha": g.get("table_sha")}
     cov["notes"] = notes
     ev["assumptions"] = ["the theorems are about the Lean model; the model is tied to /repo by this run's correspondence (%d comparisons, %d divergences)" % (evals, len(diverge))]
     return finish(ev, pid, t0, violations, notes, lean)
+
+def ir_candidates(lines, tier, notes):
+    """Solver-guided search (tools/irsearch.py): entry points whose LLVM IR differs from the one recorded for the tree the model
+    was written for are compared with the recorded baseline IR by z3, and the arguments on which the two
+    differ are added to this run's inputs.  They are candidates only - the verdict comes from the real builds and the model."""
+    try:
+        import fingerprint
+        ch = fingerprint.changed()        # on the unchanged tree every wrapper's IR is identical to the baseline and no solver time is spent
+        import irsearch
+        heads = sorted(set(l.split()[0] for l in lines) & set(irsearch.wrappers()))
+        if not heads:
+            return {"ran": False, "reason": "no entry point of this suite has a loop-free wrapper"}, []
+        budget = 60 if tier == "quick" else 600
+        r = subprocess.run([sys.executable, os.path.join(fmlib.VERIF, "tools", "irsearch.py"), "--heads", ",".join(heads), "--budget", str(budget)],
+                           capture_output=True, text=True, timeout=budget * 2 + 120)
+        out = json.loads(r.stdout)
+        st = out["stats"]; st["ran"] = True; st["changed_files"] = ch; st["candidates"] = len(out["candidates"]); st["sample"] = out["candidates"][:4]
+        return st, out["candidates"]
+    except Exception as e:
+        notes.append("solver-guided search did not complete (%s: %s); the other stages are unaffected" % (type(e).__name__, str(e)[:200]))
+        return {"ran": False, "reason": "error"}, []
 
 def suite_variants(suite, tier):
     from fmlib import V_DEFAULT, V_ABACUS, V_CLANG20, V_SAN, V_SAN_ABACUS, V_REL, V_SIZE, V_SAN_O1
